@@ -134,7 +134,7 @@ _ADD = {
  "C08": "Compile.tla states the protocol as a transition system over system-call events with a fault at every fallible step; TLC (MC_Compile) checks AllOrNothing/NoLitter on it and must reject the two earlier designs "
         "(create-then-write; fatal progress messages) kept as configurations. Fault kinds added: a regular destination that cannot be written (RLIMIT_FSIZE = 0) and a stdout that stops accepting data after the first message; "
         "the strace log of every run is replayed through Compile!Step (drift is reported in the evidence, not as a violation). Also: destination names that are not valid UTF-8 or long with multi-byte characters, and a stdout that accepts no data (/dev/full): the outcome must still be one of the two the property allows.",
- "C09": "Also at the command line: `lace run p` against `lace debug p --command <non-mutating script ending in quit>` with the program's input on stdin (Trace_Cli!DbgPairOk: same stdout, line breaks aside, and same exit status).",
+ "C09": "Also at the command line: `lace run p` against `lace debug p --command <non-mutating script ending in quit>` with the program's input on stdin (Trace_Cli!DbgPairOk: same stdout and same exit status).",
  "C14": "Transport events also count register dumps, so that a lost or invented command without echo is visible.",
  "C15": "Malformed eval texts are derived systematically from well-formed instructions: one operand missing, one token too many (registers, literals, strings, labels, directives incl. .end), one operand of the wrong kind.",
  "C16": "A session whose thread does not come back within a wall-clock limit is recorded as a `hang` event, which Trace_Debug classifies as no-progress (a spin where no hook fires is still a verdict, not a tool error).",
